@@ -315,7 +315,7 @@ class PathInterp:
             elif isinstance(st.op, ast.Sub):
                 val = cur - rhs
             elif isinstance(st.op, ast.Mult):
-                val = cur * rhs
+                val = ev.mul(cur, rhs) if hasattr(ev, 'mul') else cur * rhs
             elif isinstance(st.op, ast.Div):
                 val = cur / rhs
             else:
